@@ -507,8 +507,16 @@ class Table:
                 if key:
                     tag = THIRD_PARTY[key]
                     if tag == "PYMOO_MINIMIZE":
-                        kws = {k.arg for k in called.keywords} if called is not None else set()
-                        if called is None or "seed" not in kws:
+                        # hand-entered fact (pymoo 0.6.2): Algorithm.setup does random_state = default_rng(seed); seed is None unless
+                        # minimize() is given one  =>  OS entropy iff no seed argument reaches this call site.  The seed expression
+                        # itself is scanned like any other expression (self.rng.uniform(...) -> SELF).
+                        kws = {k.arg: k.value for k in called.keywords} if called is not None else {}
+                        sv = kws.get("seed")
+                        if called is None:
+                            self._src(f, "OS", "pymoo.optimize.minimize referenced but not called here (seed cannot be checked)", e)
+                        elif None in kws:
+                            raise TranslateError("%s: pymoo minimize(**kwargs): cannot see whether a seed is passed (line %d)" % (f.qn, e.lineno))
+                        elif sv is None or (isinstance(sv, ast.Constant) and sv.value is None):
                             self._src(f, "OS", "pymoo.optimize.minimize without seed= (pymoo 0.6.2: default_rng(None))", e)
                     elif tag == "REFDIRS":
                         a0 = called.args[0] if (called is not None and called.args) else None
@@ -587,3 +595,120 @@ if __name__ == "__main__":
     tab = Table(sys.argv[1] if len(sys.argv) > 1 else "/repo")
     for qn, f in sorted(tab.funcs.items()):
         if f.direct: print("%3d %s\n      %s" % (f.direct, qn, "\n      ".join(f.why)))
+
+# ------------------------------------------------------------------------------------------------ self test
+_SELFTEST_SRC = '''
+import numpy, random, os, secrets
+import numpy as np
+import numpy.random as npr
+from numpy.random import Generator, default_rng
+from numpy.random import uniform as unif
+from random import shuffle as pyshuffle
+from pybrops.core.random.prng import global_prng
+from pybrops.core.random import prng
+from pymoo.optimize import minimize
+
+def ok_param(x, rng=None):
+    if rng is None:
+        rng = global_prng
+    return rng.uniform()
+def bad_np_attr(): return numpy.random.uniform()
+def bad_np_alias(): return np.random.choice(3)
+def bad_npr(): return npr.random()
+def bad_from(): return unif()
+def bad_py(): return random.random()
+def bad_py_from(x): pyshuffle(x)
+def bad_os(): return default_rng().random()
+def bad_os2(): return numpy.random.default_rng(None).random()
+def bad_os3(): return numpy.random.Generator(numpy.random.PCG64())
+def bad_os4(): random.seed()
+def bad_os5(p, a): return minimize(p, a)
+def bad_os6(p, a): return minimize(p, a, seed=None)
+def bad_os7(p, a):
+    f = minimize
+    return f(p, a, seed=1)
+def ok_seeded(p, a): return minimize(p, a, seed=3)
+class G:
+    def __init__(self, rng=None): self._rng = rng
+    def run(self, p, a): return minimize(p, a, seed = int(self._rng.uniform(0.0, 1.0) * 4294967296))
+    def run_unseeded(self, p, a): return minimize(p, a, copy_algorithm = False)
+def ok_derived(s): return default_rng(s)
+def ok_types(x: numpy.random.Generator) -> numpy.random.RandomState: return isinstance(x, Generator)
+def bad_global(): return global_prng.normal()
+def bad_global_cond(rng=None):
+    if rng is not None:
+        rng = global_prng
+    return rng
+def bad_wrapper(): return prng.uniform()
+def bad_urandom(): return os.urandom(4)
+def bad_secrets(): return secrets.token_bytes(4)
+def ignored(x, rng=None): return x
+def stub(x, rng=None):
+    """doc"""
+    raise NotImplementedError("abstract")
+def calls_bad(): return bad_py()
+def nested():
+    def inner(): return numpy.random.random()
+    return inner
+class A:
+    def __init__(self, rng=None): self.rng = rng
+    @property
+    def rng(self): return self._rng
+    @rng.setter
+    def rng(self, value):
+        if value is None:
+            value = global_prng
+        self._rng = value
+    def use(self): return self.rng.random()
+    def drop(self): return ok_param(1)
+    def drop2(self): return ok_param(1, rng=None)
+    def fwd(self): return ok_param(1, rng=self.rng)
+    def fwdpos(self): return ok_param(1, self.rng)
+class B(A):
+    def use(self): return numpy.random.random()
+def via_method(a): return a.use()
+def via_ctor(): return B()
+'''
+_SELFTEST_EXPECT = {"ok_param": 5, "bad_np_attr": 8, "bad_np_alias": 8, "bad_npr": 8, "bad_from": 8, "bad_py": 16, "bad_py_from": 16,
+                    "bad_os": 32, "bad_os2": 32, "bad_os3": 32, "bad_os4": 32, "bad_os5": 32, "bad_os6": 32, "bad_os7": 32, "ok_seeded": 0, "G.run": 2, "G.run_unseeded": 32, "ok_derived": 0, "ok_types": 0,
+                    "bad_global": 8, "bad_global_cond": 9, "bad_wrapper": 8, "bad_urandom": 32, "bad_secrets": 32, "ignored": 128, "stub": 0,
+                    "calls_bad": 0, "nested": 8, "A.__init__": 3, "A.rng": 2, "A.rng.setter": 6, "A.use": 2, "A.drop": 64, "A.drop2": 64,
+                    "A.fwd": 2, "A.fwdpos": 2, "B.use": 8, "via_method": 0, "via_ctor": 0}
+_SELFTEST_REFS = {"calls_bad": {"bad_py"}, "via_method": {"A.use", "B.use"}, "via_ctor": {"A.__init__"}, "A.__init__": {"A.rng.setter"},
+                  "A.fwd": {"ok_param", "A.rng"}}
+_SELFTEST_RAISE = ["import numpy\ndef f():\n    r = numpy.random\n    return r.random()\n",
+                   "from random import *\ndef f(): return random()\n",
+                   "from numpy.random import *\n",
+                   "import random\ndef f():\n    r = random.Random(3)\n    return r.random()\n",
+                   "from deap import tools\ndef f(p): return tools.selRoulette(p, 3)\n",
+                   "from pymoo.optimize import minimize\ndef f(p, a, **kw): return minimize(p, a, **kw)\n",
+                   "from pymoo.util.ref_dirs import get_reference_directions\ndef f(): return get_reference_directions('energy', 3, 10)\n"]
+
+def selftest(scratch):
+    """the translator must flag every hidden-source idiom of a synthetic module, and refuse what it cannot classify"""
+    import shutil
+    def build(src):
+        shutil.rmtree(scratch, ignore_errors=True)
+        for d in ("pybrops", "pybrops/core", "pybrops/core/random"):
+            os.makedirs(os.path.join(scratch, d)); open(os.path.join(scratch, d, "__init__.py"), "w").write("")
+        open(os.path.join(scratch, "pybrops/core/random/prng.py"), "w").write(
+            "import numpy\nimport random as py_random\nglobal_prng = numpy.random.random.__self__\nuniform = global_prng.uniform\n"
+            "def seed(s=None):\n    py_random.seed(s)\n    numpy.random.seed(py_random.randint(0, 2**32-1))\n")
+        open(os.path.join(scratch, "pybrops/m.py"), "w").write(src)
+        return Table(scratch)
+    tab = build(_SELFTEST_SRC)
+    for k, want in _SELFTEST_EXPECT.items():
+        got = tab.funcs["pybrops.m." + k].direct
+        if got != want: raise TranslateError("translator self-test: %s classified %d, expected %d (%s)" % (k, got, want, tab.funcs["pybrops.m." + k].why))
+    for k, want in _SELFTEST_REFS.items():
+        got = {r[len("pybrops.m."):] for r in tab.funcs["pybrops.m." + k].refs}
+        if not want <= got: raise TranslateError("translator self-test: %s references %s, expected at least %s" % (k, sorted(got), sorted(want)))
+    if tab.funcs["pybrops.core.random.prng.seed"].direct != 24: raise TranslateError("translator self-test: prng.seed")
+    for src in _SELFTEST_RAISE:
+        try:
+            build(src)
+        except TranslateError:
+            continue
+        raise TranslateError("translator self-test: unclassifiable source was accepted: %r" % src[:60])
+    shutil.rmtree(scratch, ignore_errors=True)
+    return len(_SELFTEST_EXPECT) + len(_SELFTEST_REFS) + len(_SELFTEST_RAISE)
